@@ -259,6 +259,18 @@ pub fn run(ctx: &mut Ctx) {
             rejected_src = format!("{} {}", over.join(" "), rejected_src);
             extra_probe = Some("kk".to_string());
         }
+        let mut finding_tag = "";
+        if ctx.rng.chance(6) {
+            // a user-defined immediate word runs while the source is read, in the source's own (not a meta) context: what
+            // it writes to variables is not undone when the source is rejected afterwards (known finding, see DESIGN R4)
+            ctx.tag("kind:user-immediate");
+            finding_tag = "[user-immediate-writes] ";
+            let k = ctx.rng.range(0, 50);
+            pre.extend(styled(&mut ctx.rng, style, format!("{} var uv : bump uv 1 + ! uv immediate ;", k)));
+            let n = ctx.rng.below(3) + 1;
+            rejected_src = format!("{} {}", vec!["bump"; n].join(" "), rejected_src);
+            extra_probe = Some("uv".to_string());
+        }
         let bad = match style { 0 => Op::Eval(rejected_src.clone()), 1 => Op::Line(rejected_src.clone()), _ => if ctx.rng.bool() { Op::Compile(rejected_src.clone()) } else { Op::Eval(rejected_src.clone()) } };
         let nprobes = ctx.rng.below(4) + 1;
         let mut probes: Vec<Op> = Vec::new();
@@ -273,7 +285,8 @@ pub fn run(ctx: &mut Ctx) {
         ops.push(bad.clone());
         ops.extend(probes.iter().cloned());
         // files are outside the session model: these histories go to the with/without oracle only
-        if !with_files { correspondence(ctx, "C10", &ops); }
+        // (so are user-defined immediate words)
+        if !with_files && finding_tag.is_empty() { correspondence(ctx, "C10", &ops); }
         // oracle: with vs without the rejected source
         let mut with = fresh();
         let mut without = fresh();
@@ -294,7 +307,7 @@ pub fn run(ctx: &mut Ctx) {
         for o in OPENERS { if !o.is_empty() && rejected_src.contains(o) { ctx.tag(&format!("open:{}", o)); } }
         if style == 1 { without.abort_run(); }
         let (a, b) = (state_sig(&mut with), state_sig(&mut without));
-        ctx.check(a == b, || format!("C10 after-rejected {}", hist()), || b.clone(), || a.clone());
+        ctx.check(a == b, || format!("{}C10 after-rejected {}", finding_tag, hist()), || b.clone(), || a.clone());
         for p in &probes {
             let (o1, o2) = (with.stdout().map(|s| s.len()).unwrap_or(0), without.stdout().map(|s| s.len()).unwrap_or(0));
             let r1 = apply(&mut with, p);
@@ -303,7 +316,7 @@ pub fn run(ctx: &mut Ctx) {
             let out1 = with.stdout().map(|s| s[o1..].to_string()).unwrap_or_default();
             let out2 = without.stdout().map(|s| s[o2..].to_string()).unwrap_or_default();
             let (a, b) = (state_sig(&mut with), state_sig(&mut without));
-            ctx.check(r1 == r2 && out1 == out2 && a == b, || format!("C10 probe {} after {}", p.text(), hist()),
+            ctx.check(r1 == r2 && out1 == out2 && a == b, || format!("{}C10 probe {} after {}", finding_tag, p.text(), hist()),
                 || format!("{} out={:?} {}", r2, out2, b), || format!("{} out={:?} {}", r1, out1, a));
         }
     }
